@@ -85,6 +85,10 @@ func cmdRun(args []string) int {
 			if o.Kind == "canary" && o.Label == "return" && anyRet {
 				okay = true
 			}
+			if o.Kind == "errflow" && !okay && !*verbose {
+				// sweep instances are claimed only through the baseline (govc check); not a failure of this run
+				continue
+			}
 			mark := "ok "
 			if !okay {
 				mark = "BAD"
